@@ -60,7 +60,10 @@ FreeAns == [st |-> "free", kind |-> "", tag |-> 0 - 1, cap |-> "", exps |-> <<>>
 \*      req     Disembargo senderLoopback received and not yet echoed: <<embargo id, answer id, tags that must be forwarded first>>
 \*      conc    pairs <<t1, t2>>: local call t1 was being held back when t2 was made (the two were made concurrently, SendCall of t1
 \*              had not returned): no order is defined between them
-FreeEmb == [lseq |-> <<>>, out |-> {}, held |-> {}, ptgt |-> {}, fwd |-> <<>>, fwdres |-> {}, req |-> {}, conc |-> {}]
+\*      lcap    <<tag, capability>>: local calls whose parameters carry a capability of this vat
+\*      qpar    <<question id, export id>>: exports created / referenced by the parameters of an open question (a bag would be needed for
+\*              several descriptors of one export in one call; the scripts put one capability in a call)
+FreeEmb == [lseq |-> <<>>, out |-> {}, held |-> {}, ptgt |-> {}, fwd |-> <<>>, fwdres |-> {}, req |-> {}, conc |-> {}, lcap |-> {}, qpar |-> {}]
 Fresh == /\ ans = [i \in Ids |-> FreeAns] /\ exp = [i \in Ids |-> [cap |-> "", wire |-> 0]]
          /\ qst = [i \in Ids |-> "free"] /\ qtag = [i \in Ids |-> 0 - 1] /\ qrel = [i \in Ids |-> FALSE] /\ imp = [i \in Ids |-> 0] /\ lh = {}
          /\ started = <<>> /\ callseq = <<>> /\ appret = {} /\ shut = <<>> /\ caps = {"B"} /\ lres = {} /\ pret = {}
@@ -122,8 +125,13 @@ RecvReturn == /\ Msg("recv", "return") /\ Consume
               \* capabilities in a Return that answers a question cancelled with releaseResultCaps are released by the peer itself
               /\ imp' = IF qst[E.q] = "canceled" /\ qrel[E.q] THEN imp
                          ELSE [i \in Ids |-> imp[i] + Count([j \in 1..Len(E.caps) |-> IF E.caps[j][1] \in {"senderHosted", "senderPromise"} THEN E.caps[j][2] ELSE 0 - 1], i)]
-              /\ emb' = IF qtag[E.q] \in Range(emb.fwd) THEN [emb EXCEPT !.fwdres = @ \cup {<<qtag[E.q], E.kind, E.tag>>}] ELSE emb
-              /\ Keep(<<ans, exp, qtag, qrel, lh, started, callseq, appret, shut, caps, lres, closed, aborted>>)
+              /\ emb' = [(IF qtag[E.q] \in Range(emb.fwd) THEN [emb EXCEPT !.fwdres = @ \cup {<<qtag[E.q], E.kind, E.tag>>}] ELSE emb)
+                           EXCEPT !.qpar = { x \in @ : x[1] # E.q }]
+              \* releaseParamCaps: the peer gives back the references it received in the parameters of this question
+              /\ exp' = IF E.rel
+                         THEN [i \in Ids |-> IF <<E.q, i>> \in emb.qpar /\ exp[i].wire > 0 THEN [exp[i] EXCEPT !.wire = @ - 1] ELSE exp[i]]
+                         ELSE exp
+              /\ Keep(<<ans, qtag, qrel, lh, started, callseq, appret, shut, caps, lres, closed, aborted>>)
 \* Disembargo from the peer.  senderLoopback: the peer asks for the echo behind everything pipelined on that answer so far.
 \* receiverLoopback: the echo of an embargo the connection announced - the embargo is over.
 RecvDisembargo ==
@@ -195,8 +203,18 @@ SendQuestion == /\ (Msg("send", "bootstrap") \/ Msg("send", "call")) /\ Consume
                         /\ \A x \in emb.ptgt : \A y \in emb.ptgt :
                               (x[1] = E.tag /\ y[2] = x[2] /\ y[1] \in Range(emb.fwd)) => Pos(callseq, y[1]) < Pos(callseq, E.tag)
                         /\ emb' = [emb EXCEPT !.fwd = Append(@, E.tag)]
+                   ELSE IF E.m = "call" /\ Len(ExpSeq(E.caps)) > 0
+                   THEN emb' = [emb EXCEPT !.qpar = @ \cup {<<E.q, ExpSeq(E.caps)[1][2]>>}]
                    ELSE emb' = emb
-                /\ Keep(<<ans, exp, qrel, imp, lh, started, callseq, appret, shut, caps, lres, pret, closed, aborted>>)
+                \* a capability of this vat in the parameters: one senderHosted descriptor, its export gains a wire reference
+                /\ IF E.m = "call" /\ \E x \in emb.lcap : x[1] = E.tag
+                   THEN LET k == (CHOOSE x \in emb.lcap : x[1] = E.tag)[2] IN
+                        /\ Len(ExpSeq(E.caps)) = 1
+                        /\ LET x == ExpSeq(E.caps)[1][2] IN
+                           /\ (exp[x].wire > 0 => exp[x].cap = k)
+                           /\ exp' = [exp EXCEPT ![x] = [cap |-> k, wire |-> (IF exp[x].cap = k THEN exp[x].wire ELSE 0) + 1]]
+                   ELSE exp' = exp
+                /\ Keep(<<ans, qrel, imp, lh, started, callseq, appret, shut, caps, lres, pret, closed, aborted>>)
 SendFinish == /\ Msg("send", "finish") /\ Consume
               /\ qst[E.q] \in {"open", "returned"}
               \* a Finish sent before the Return (cancellation): the id stays in use until the Return arrives
@@ -292,7 +310,12 @@ CloseInvoked == /\ Ev("close") /\ Consume /\ closed' = TRUE
                 /\ ans' = [i \in Ids |-> [ans[i] EXCEPT !.fin = TRUE, !.cap = IF ans[i].st = "open" THEN "" ELSE ans[i].cap]]
                 /\ exp' = [i \in Ids |-> [exp[i] EXCEPT !.wire = 0]]
                 /\ Keep(<<qst, qtag, qrel, imp, lh, started, callseq, appret, shut, caps, lres, pret, aborted, emb>>)
-Passive == /\ (Ev("l-bootstrap") \/ Ev("l-call") \/ Ev("app-cancelled") \/ Ev("reported") \/ Ev("fault")
+\* a local call whose parameters carry a new capability of this vat
+LCallCap == /\ Ev("l-call") /\ E.cap # "" /\ Consume
+            /\ caps' = caps \cup {E.cap}
+            /\ emb' = [emb EXCEPT !.lcap = @ \cup {<<E.tag, E.cap>>}]
+            /\ Keep(<<ans, exp, qst, qtag, qrel, imp, lh, started, callseq, appret, shut, lres, pret, closed, aborted>>)
+Passive == /\ (Ev("l-bootstrap") \/ (Ev("l-call") /\ E.cap = "") \/ Ev("app-cancelled") \/ Ev("reported") \/ Ev("fault")
                \/ Ev("transport-closed") \/ Ev("done") \/ Ev("end") \/ Ev("peer-deliver") \/ Ev("peer-echo") \/ Ev("view"))
            /\ Consume
            /\ Keep(<<ans, exp, qst, qtag, qrel, imp, lh, started, callseq, appret, shut, caps, lres, pret, closed, aborted, emb>>)
@@ -315,7 +338,7 @@ CloseReturned == /\ Ev("close-returned") /\ Consume
 
 Next == Reset \/ RecvBootstrap \/ RecvCall \/ RecvFinish \/ RecvRelease \/ RecvReturn \/ RecvDisembargo \/ RecvOther
         \/ SendReturn \/ SendReturnNoBody \/ SendReturnForwarded \/ SendQuestion \/ SendFinish \/ SendRelease \/ SendAbort
-        \/ SendDisembargoSender \/ SendDisembargoEcho \/ SendOther \/ LPCall
+        \/ SendDisembargoSender \/ SendDisembargoEcho \/ SendOther \/ LPCall \/ LCallCap
         \/ AppStart \/ AppReturn \/ Shutdown \/ CloseInvoked \/ LHandle \/ LRelease \/ LocalResult \/ Passive \/ Quiesce \/ CloseReturned
 Spec == Init /\ [][Next]_vars
 
